@@ -7,7 +7,8 @@ RULE = ("one evaluation = one judged observation on a real StdScheduler driven t
         "200x Start;cancel;Start with no delay (IsStarted true at once and still true after the stale watcher ran; a 10 ms job fires), shutdown through Stop and "
         "through cancellation with identical observable state (IsStarted false within 1 s, running jobs see ctx.Done within 1 s, Wait returns within 2 s, afterwards "
         "nothing in flight, nothing starts within 100 ms, no goroutine with a frame of package quartz in the goroutine dump, restart works), Wait with an expiring "
-        "context while a job hangs, and random call sequences (Start, Start with a cancelled context, Stop, cancel of the current / of an earlier run's context, "
+        "context while a job hangs, 100 vs 1000 expired Waits on a running scheduler (the number of goroutines of the process must not grow), 50x per mode "
+        "Start; Wait(expiring ctx)x64; Stop; Start; Stop; Wait in a CHILD process (a runtime panic kills the process: reported as a violation), and random call sequences (Start, Start with a cancelled context, Stop, cancel of the current / of an earlier run's context, "
         "pauses) after each call of which IsStarted is compared with the call-order specification `Lifecycle.expect` of the Lean model. A sequence is non-trivial "
         "if it has >= 3 calls; distinct by (mode, call sequence). No exact differential run of the interleavings (they are not replayable): the theorems cover every "
         "interleaving of the model, the tie is the regenerated shape of Start/Stop/stopRun/stop/IsStarted/Wait and the goroutine accounting plus this run")
@@ -21,15 +22,15 @@ def run(ctx):
     if not ctx.thorough:
         results = [generic.engine_run(ctx, "lifecycle", ["--seed", str(ctx.seed), "--n", "60"], "main", timeout=900)]
     else:
-        results = [generic.engine_run(ctx, "lifecycle", ["--seed", str(ctx.seed), "--n", "600", "--reps", "1500", "--len", "24"], "main", timeout=1800)]
+        results = [generic.engine_run(ctx, "lifecycle", ["--seed", str(ctx.seed), "--n", "600", "--reps", "1500", "--len", "24", "--child-iters", "300"], "main", timeout=1800)]
         for k in range(1, 4):
             results.append(generic.engine_run(ctx, "lifecycle", ["--seed", str(ctx.seed * 1000 + k), "--n", "300", "--reps", "300", "--len", "40"], "extra%d" % k, timeout=1800))
         race_variant(ctx)
     bad = generic.proof_cov(ctx, extra_trusted=[
         "sync.RWMutex: Start, Stop, stopRun and IsStarted are atomic with respect to each other (their bodies run with sched.mtx held: regenerated facts); "
         "context.WithCancel: cancelling a parent or calling cancel() makes Done() ready and Err() non-nil for the derived context, permanently",
-        "sync.WaitGroup: Wait returns when the counter is zero; the counter is the number of Add(1) minus the number of Done (every go statement of the package is "
-        "accounted for: regenerated facts). Calling Start concurrently with Wait while the counter is zero is outside the WaitGroup contract and outside the model",
+        "waitCounter (mutex, n, done): Add / Done / zero are atomic (their bodies run with the counter's mutex held: regenerated facts); a closed channel stays closed and "
+        "wakes every receiver; the counter is the number of Add(1) minus the number of Done (every go statement of the package is accounted for, Wait creates none: regenerated facts)",
         "jobs are abstract: an execution may end at any time or never; that a job which honours its context ends promptly, goroutine exit latency and the absence "
         "of leaked goroutines in the real runtime are observed by the harness (goroutine dump), not proved",
         "the `run` counter does not wrap (uint64)"])
